@@ -31,6 +31,7 @@ def to_real(v):
 
 def to_int(v):
     if isinstance(v, VInt): return v.t
+    if isinstance(v, VOpt): return to_int(v.inner)     # callers have established / obliged non-None
     if isinstance(v, VBool): return z3.If(v.t, z3.IntVal(1), z3.IntVal(0))
     raise Unsupported(f"to_int({v!r})")
 
@@ -628,7 +629,7 @@ class ExprMixin:
                 s2.locals[a.arg] = v
             res = eng.ev(node.body, s2)
             for s3, _ in res:
-                s3.locals = saved
+                s3.locals = dict(saved)
             return res
         return [(st, VFunc("lambda", fn))]
 
